@@ -1,4 +1,5 @@
 import Oas3Model.Model.Flags
+import Oas3Model.Gen.FlagSites
 namespace Oas3.Props.C18
 open Oas3.Flags
 
@@ -38,5 +39,59 @@ example : erase (decorate ⟨.crate, true⟩ (fun _ => ["builder(default = 3)".t
     { kind := "struct".toList, name := "Pet".toList, derives := ["Debug".toList], attrs := [], fields := [⟨"n".toList, "i64".toList, ["serde(rename = \"N\")".toList]⟩] })
     = { kind := "struct".toList, name := "Pet".toList, derives := ["Debug".toList], attrs := [], fields := [⟨"n".toList, "i64".toList, ["serde(rename = \"N\")".toList]⟩] } := by
   rw [erase_decorate]
+
+/-! ## where the presentation flags are READ (regenerated table `Gen/FlagSites.lean`, tie T)
+
+`--no-helpers`, `--enable-builders` and `--all-headers` reach the generator as `CodegenConfig::{no_helpers, enable_builders,
+include_all_headers}`. The translator lists every read of these (accessor calls, the fields behind them, the policy enums)
+in the CURRENT non-test sources together with what the read feeds. Each is reviewed here and given the ONE documented
+decoration it decides; a read added anywhere else (or one of these feeding something else) breaks the proof. -/
+
+inductive Effect
+  | helperMethods    -- `let methods = if no_helpers { vec![] } else { constructors }`: inherent helper constructors only
+  | builderDerive    -- `additional_derives` of a schema struct: `bon::Builder`
+  | builderAttrs     -- `FieldDef::with_builder_attrs` on the fields of a schema struct: `#[builder(..)]` only
+  | builderCtor      -- the `builder_method` of a request struct
+  | headerConsts     -- `extend_component_headers`: header-name constants of component-level headers
+  | wiring           -- definition of the accessor / mapping of the command-line switch onto the config
+  deriving DecidableEq, Repr
+
+open Oas3.Gen.FlagSites in
+def justifiedReads : List ((List Char × List Char × List Char × List Char) × Effect) := [
+  (("generator/converter/fields.rs".toList, "build_struct_fields".toList, "enable_builders".toList, "if:fields".toList), .builderAttrs),
+  (("generator/converter/mod.rs".toList, "<top>".toList, "enum_helpers".toList, "other:ult)] pub enum_case: EnumCasePolicy, #[builder(default)] pub|enum_helpers|: EnumHelperPolicy, #[builder(".toList), .wiring),
+  (("generator/converter/mod.rs".toList, "<top>".toList, "header_scope".toList, "other:ult)] pub schema_scope: SchemaScope, #[builder(default)] pub|header_scope|: HeaderScope, #[builder(defau".toList), .wiring),
+  (("generator/converter/mod.rs".toList, "enable_builders".toList, "enable_builders.field".toList, "ret".toList), .wiring),
+  (("generator/converter/mod.rs".toList, "include_all_headers".toList, "HeaderScope".toList, "other:self.header_scope ==|HeaderScope::All|} #[must_use] pub fn enable_bu".toList), .wiring),
+  (("generator/converter/mod.rs".toList, "include_all_headers".toList, "header_scope".toList, "other:self.|header_scope|== HeaderScope::All } #[must_u".toList), .wiring),
+  (("generator/converter/mod.rs".toList, "no_helpers".toList, "EnumHelperPolicy".toList, "other:self.enum_helpers ==|EnumHelperPolicy::Disable|} #[must_use] pub fn odata_sup".toList), .wiring),
+  (("generator/converter/mod.rs".toList, "no_helpers".toList, "enum_helpers".toList, "other:self.|enum_helpers|== EnumHelperPolicy::Disable }".toList), .wiring),
+  (("generator/converter/operations.rs".toList, "process_all".toList, "include_all_headers".toList, "if:self.extend_component_headers".toList), .headerConsts),
+  (("generator/converter/relaxed_enum.rs".toList, "build_relaxed_enum_types".toList, "no_helpers".toList, "let:methods".toList), .helperMethods),
+  (("generator/converter/requests.rs".toList, "build".toList, "enable_builders.field".toList, "let:builder_method".toList), .builderCtor),
+  (("generator/converter/requests.rs".toList, "new".toList, "enable_builders".toList, "field:param_converter".toList), .builderCtor),
+  (("generator/converter/structs.rs".toList, "build_struct".toList, "enable_builders".toList, "let:enable_builders".toList), .builderDerive),
+  (("generator/converter/unions.rs".toList, "collect_union_variants".toList, "no_helpers".toList, "let:methods".toList), .helperMethods),
+  (("ui/commands/generate.rs".toList, "create_orchestrator".toList, "EnumHelperPolicy".toList, "other:|EnumHelperPolicy::Disable|} else { EnumHelperPolicy::Gen".toList), .wiring),
+  (("ui/commands/generate.rs".toList, "create_orchestrator".toList, "EnumHelperPolicy".toList, "other:|EnumHelperPolicy::Generate|}) .enum_deserialize(if self.c".toList), .wiring),
+  (("ui/commands/generate.rs".toList, "create_orchestrator".toList, "HeaderScope".toList, "other:|HeaderScope::All|} else { HeaderScope::Referenc".toList), .wiring),
+  (("ui/commands/generate.rs".toList, "create_orchestrator".toList, "HeaderScope".toList, "other:|HeaderScope::ReferencedOnly|}) .enable_builders(self.enabl".toList), .wiring),
+  (("ui/commands/generate.rs".toList, "create_orchestrator".toList, "all_headers.field".toList, "other:) .header_scope(if self|.all_headers|{ HeaderScope::All } else { He".toList), .wiring),
+  (("ui/commands/generate.rs".toList, "create_orchestrator".toList, "enable_builders.field".toList, "other:) .enable_builders(self|.enable_builders|) .customizations(self.customi".toList), .wiring),
+  (("ui/commands/generate.rs".toList, "create_orchestrator".toList, "enum_helpers".toList, "other:) .|enum_helpers|(if self.no_helpers { EnumHelp".toList), .wiring),
+  (("ui/commands/generate.rs".toList, "create_orchestrator".toList, "header_scope".toList, "other:) .|header_scope|(if self.all_headers { HeaderS".toList), .wiring),
+  (("ui/commands/generate.rs".toList, "create_orchestrator".toList, "no_helpers.field".toList, "other:) .enum_helpers(if self|.no_helpers|{ EnumHelperPolicy::Disable } ".toList), .wiring)]
+
+/-- every read of a presentation flag in the current sources is a reviewed one -/
+theorem flag_reads_justified : ∀ r ∈ Oas3.Gen.FlagSites.reads, r ∈ justifiedReads.map (·.1) := by decide +kernel
+
+/-- … and every reviewed read is still there (a decoration that stops consulting its flag is a change too) -/
+theorem justified_reads_present : ∀ p ∈ justifiedReads, p.1 ∈ Oas3.Gen.FlagSites.reads := by decide +kernel
+
+/-- the three switches are each consulted by the generator proper (not only wired through) -/
+theorem each_flag_decides_something :
+    (justifiedReads.any fun p => p.2 == .helperMethods) ∧ (justifiedReads.any fun p => p.2 == .builderDerive) ∧
+    (justifiedReads.any fun p => p.2 == .builderAttrs) ∧ (justifiedReads.any fun p => p.2 == .builderCtor) ∧
+    (justifiedReads.any fun p => p.2 == .headerConsts) := by decide +kernel
 
 end Oas3.Props.C18
